@@ -290,3 +290,12 @@ def has_buffer(prog):
 
 def to_text(prog):
     return '; '.join(repr(i) for i in prog['instrs']) + ' -> ' + repr(prog['ret'])
+
+
+def run_vec(prog, x, ap):
+    """the outputs of `prog` assembled into ONE vector-valued result (what the M>1 drivers need)"""
+    ys = run(prog, x, ap)
+    out = ap.zeros(len(ys), dtype=x)
+    for k, y in enumerate(ys):
+        out[k] = y
+    return out
